@@ -72,6 +72,7 @@ let runners : (string * (z list -> z list)) list = [
   "buf", run_buf;
   "lim", run_lim;
   "skip", run_skip;
+  "join", run_join;
   "fnode", run_fnode;
   "pull", run_pull;
   "mon", run_mon;
